@@ -195,7 +195,10 @@ def run_overlap(c):
     s1, s2 = c["sizes"]
     o1 = Observation("a", 0, 1, 1, "none", s1)
     o1.total_data_size = s1
-    o2 = Observation("b", 0, 1, 1, "none", s2)
+    # twin: a second observation with the SAME description (same pipeline
+    # on another sub-array): a different object that may compare equal
+    n2 = "a" if c.get("twin") else "b"
+    o2 = Observation(n2, 0, 1, 1, "none", s2)
     o2.total_data_size = s2
     # observation_for_transfer pops the LAST stored one
     h.observations['stored'].extend([o2, o1])
@@ -255,7 +258,7 @@ def run_overlap(c):
             vs.append(("C18.duration", "overlapping-h2c:refused-second-move-"
                        "changed-first-move-duration",
                        {"steps": steps, "expected": math.ceil(s1 / r)}))
-        if list(hs) != ["b"] or list(cs) != ["a"] or ht is not None \
+        if list(hs) != [n2] or list(cs) != ["a"] or ht is not None \
                 or ct is not None or \
                 h.current_capacity != c["hotcap"] - s2 or \
                 cold.current_capacity != c["coldcap"] - s1:
@@ -273,9 +276,12 @@ def run_overlap(c):
             {"steps": steps, "expected": want_last}))
     st = state(buf)
     hs, ht, cs, ct = st[2], st[3], st[4], st[5]
-    for nm in ("a", "b"):
-        n_in = hs.count(nm) + cs.count(nm)
-        if n_in != 1 or cs.count(nm) != 1:
+    for nm, ob in (("a", o1), (n2, o2)):
+        # by identity, not by name or equality
+        in_h = sum(1 for x in h.observations['stored'] if x is ob)
+        in_c = sum(1 for x in cold.observations['stored'] if x is ob)
+        n_in = in_h + in_c
+        if n_in != 1 or in_c != 1:
             vs.append(("C18.stored-in-one-tier", "overlapping-h2c:stored-in-%s"
                        % ("neither" if n_in == 0 else "both-or-twice"
                           if n_in > 1 else "source"),
@@ -305,6 +311,14 @@ def overlap_domain(tier):
                "hotrate": hr, "coldrate": cr, "gap": gap,
                "hotcap": s1 + s2 + 5, "coldcap": s1 + s2 + 5,
                "moves": ["h2c", "h2c"]}
+    # two observations with one description, moved one after the other or
+    # overlapping
+    for sz in ((2, 3, 4) if tier != "thorough" else range(1, 9)):
+        for (hr, cr), gap in itertools.product(rates[:3], (0, 1, 2, 3, 6)):
+            yield {"engine": "E2", "overlap": True, "twin": True,
+                   "sizes": [sz, sz], "hotrate": hr, "coldrate": cr,
+                   "gap": gap, "hotcap": 2 * sz + 5, "coldcap": 2 * sz + 5,
+                   "moves": ["h2c", "h2c"]}
 
 
 def domain(tier):
